@@ -343,14 +343,14 @@ def run(rep):
     for k in range(n_mac):
         rng = rng_for(seed, "c17-mac", k)
         d, ls = macro_case(rng)
-        if trips_stale_ranges(d, ls) or trips_quote_in_char(ls):
+        if trips_quote_in_char(ls):
             # keep the line shapes but make the case safe: drop the string parts
             avoided += 1
             ls = [l.replace('"', " ") for l in ls]
             d = [(n, b.replace('"', "")) for n, b in d]
         cases.append((d, ls)); origin.append("macro-lines")
     # (4) the 100-iteration cap boundary: lines with k uses of one macro, k around 100
-    for k in [1, 50, 98, 99, 100]:
+    for k in [1, 50, 99, 100, 101, 150, 250]:
         cases.append(([("N", "1")], [" ".join(["N"] * k)])); origin.append("cap-boundary")
 
     results = run_both(cases, impl)
